@@ -7,7 +7,11 @@ from batchie.data import Screen
 from batchie.scoring.main import score_chunk, select_next_plate, ChunkedScoresHolder
 from harness.util import outcome, Interner
 
-LEVEL = {0: float("-inf"), 1: -1.5, 2: 3.0}
+# concrete score values of the three abstract levels (ascending): any floats will do, including -inf, near ties far below any
+# printing precision, and values of very different magnitude
+LEVELS = [{0: float("-inf"), 1: -1.5, 2: 3.0}, {0: 1e-9, 1: 2e-9, 2: 3e-9}, {0: 0.1, 1: 0.1 + 1e-12, 2: 0.1 + 2e-12},
+          {0: -1e300, 1: -1.0 - 1e-15, 2: -1.0}]
+LEVEL = dict(LEVELS[0])
 
 
 class RecScorer(Scorer):
@@ -78,6 +82,8 @@ _aux_files.key = None
 
 def real_round(fx, observed, batch, nchunks, level_of, order, allowed, tmp, rnd, cli=False, cli_scores=False):
     scr = fx.screen(set(observed))
+    LEVEL.clear()
+    LEVEL.update(rnd.choice(LEVELS))
     t = {"observed": sorted(observed), "batch": sorted(batch), "nchunks": nchunks, "size_mode": bool(cli_scores),
          "score": [level_of.get(p, 0) for p in range(max(r[0] for r in fx.rows) + 1)], "chunks": []}
     files = []
